@@ -28,6 +28,10 @@ def check_predict(chk, rep, repo, cls, fields):
     fn = w.entry
     G = ("attr", ("self",), "subgraph")
     scans = find_knn_scans(w)
+    if not scans:
+        from ..rules_knn import report_missing_scan
+        if report_missing_scan(rep, w, f"{cls}.predict"):
+            return 0
     if len(scans) != 1:
         raise AnalysisError(f"{cls}.predict: expected one k-nearest insertion scan, found {len(scans)}")
     sc = scans[0]
